@@ -13,7 +13,7 @@ from vlib import world as W
 from vlib import simbus
 from vlib import refcodec as R
 
-FATES = ["ok", "ok", "wrong_key", "refuse_proceed", "respond_error", "absent", "fail_after_proceed"]
+FATES = ["ok", "ok", "wrong_key", "refuse_proceed", "respond_error", "absent", "fail_after_proceed", "late"]
 
 
 def _errors():
@@ -38,6 +38,14 @@ def _strategy():
             op = {"op": draw(st.sampled_from(["read", "write"])), "fate": fate, "size": size, "count": max(1, nb // size),
                   "data_seed": draw(st.integers(0, 10 ** 5)), "gap_after": draw(st.sampled_from([0.001, 0.001, 0.05, 0.05, 0.5, 1.5, 3.5])),
                   "addr_sel": draw(st.sampled_from([0, 0, 0, 1, 2])), "raw": draw(st.booleans())}
+            if fate == "late":
+                # the serving application answers a single-frame read so late that the caller's timeout expires while the client
+                # is writing its closing DM14 (client write time 3 ms; "frac" = where in that write the timeout falls)
+                op["op"] = "read"
+                op["count"], op["size"] = draw(st.sampled_from([1, 3, 7])), 1
+                op["max_timeout"] = draw(st.sampled_from([0.1, 0.5, 1]))
+                op["frac"] = draw(st.sampled_from([0.1, 0.25, 0.5, 0.75, 0.9]))
+                op["gap_after"] = max(op["gap_after"], 0.05)
             if fate == "fail_after_proceed":
                 # a scripted device (in place of the library server) answers a READ with DM15 'proceed' and then, instead of the
                 # data, with DM15 'operation failed' carrying an error indicator
@@ -56,12 +64,18 @@ def _strategy():
         for a, b in zip(ops, ops[1:]):
             if b["fate"] in ("absent", "fail_after_proceed") and a["gap_after"] < 0.02:
                 a["gap_after"] = 0.05
-        return {"seed_key": seed_key,
+        has_late = any(o["fate"] == "late" for o in ops)
+        if has_late:
+            for o in ops:
+                if o["fate"] == "wrong_key":           # (no seed/key exchange in these cases)
+                    o["fate"] = "respond_error"
+                    o["error"], o["edcp"] = 0x1003, 7
+        return {"seed_key": seed_key if not has_late else None,
                 "seeds": draw(st.lists(st.one_of(st.sampled_from([0x0000, 0xFFFF, 1, 0xFFFE, 0x8000, 0x00FF]), st.integers(0, 0xFFFF)), min_size=1, max_size=3)),
                 "ops": ops, "final_probe": True, "sas": draw(st.sampled_from([[0xF9, 0xD4, 0xA7], [0xF9, 0xD4, 0xA7], [0x00, 0xD4, 0xA7], [0x01, 0x00, 0xFD], [0xFD, 0x80, 0x00], [0x7F, 0xFD, 0x01]])),
                 # (server-side write times are not generated: the server's DM14 code updates its state after several of its writes;
                 # two such defects were repaired - D40 (client), D41 (server, write data) - the rest is a documented limit, DESIGN.md 8)
-                "tx": draw(st.sampled_from([[0.0, 0.0], [0.0, 0.0], [0.0015, 0.0], [0.003, 0.0], [0.0005, 0.0]])),
+                "tx": draw(st.sampled_from([[0.0, 0.0], [0.0, 0.0], [0.0015, 0.0], [0.003, 0.0], [0.0005, 0.0]])) if not has_late else [0.003, 0.0],
                 "lat": {"C": [draw(st.sampled_from([0.0002, 0.001, 0.005]))], "S": [draw(st.sampled_from([0.0002, 0.001, 0.005]))]}}
     return build()
 
@@ -77,7 +91,7 @@ class C18:
     RULE = ("Hypothesis draws seed/key off or on (generated seeds and bijective key algorithm) and a history of 1..6 reads/writes "
             "(1..20 bytes, object sizes 1/2/4, same or different memory address) each with a fate: success / wrong key (one bit flipped in the low byte, the high byte or the top bit, "
             "0x0000, 0xFFFF, another algorithm) / proceed callback refuses / respond(False, error, edcp) with every J1939Error value "
-            "and undefined ones, edcp 6 or 7 / a scripted device that answers a read with 'proceed' and then with 'operation failed' + error indicator / server absent with max_timeout in {0.1,0.5,1,2 s}; gaps 0.05..3.5 s; a final "
+            "and undefined ones, edcp 6 or 7 / a scripted device that answers a read with 'proceed' and then with 'operation failed' + error indicator / an answer at the last moment (the caller's timeout of 0.1/0.5/1 s expires while the client writes its closing DM14 for 3 ms) / server absent with max_timeout in {0.1,0.5,1,2 s}; gaps 0.05..3.5 s; a final "
             "well-formed read always follows; non-trivial = a failure followed by an operation that must succeed; distinct = "
             "distinct histories")
     ASSUMPTIONS = [
@@ -107,6 +121,9 @@ class C18:
     def exhaustive(self, tier):
         return False
 
+    def valid(self, p):
+        return bool(p["seed_key"]) or not any(o["fate"] == "wrong_key" for o in p["ops"])
+
     def run_case(self, p):
         viol = []
         j = W.load()
@@ -131,8 +148,13 @@ class C18:
                     tx["values"] = D.values_for(o["data_seed"], count, size)
                 txs.append(tx)
                 exp.append(data if o["op"] == "read" else [b for v in tx["values"] for b in v.to_bytes(size, "little")])
-                if o["fate"] in ("ok", "respond_error"):
-                    if o["fate"] == "ok":
+                if o["fate"] in ("ok", "respond_error", "late"):
+                    if o["fate"] == "late":
+                        # request (written in 3 ms) -> server after its latency; answer -> client after its latency
+                        # (the caller's timeout starts when the write of the request has returned, 3 ms after the frame)
+                        d_ = o["max_timeout"] + 0.003 - p["lat"]["S"][0] - p["lat"]["C"][0] - 0.003 * o["frac"]
+                        plans.append({"proceed": True, "data": data, "tx": ti, "delay": d_})
+                    elif o["fate"] == "ok":
                         plans.append({"proceed": True, "data": data if o["op"] == "read" else [], "tx": ti})
                     else:
                         plans.append({"proceed": False, "error": o["error"], "edcp": o["edcp"], "tx": ti})
@@ -229,6 +251,19 @@ class C18:
                           (ti, got if isinstance(got, str) or got is None else got[:8], exp[ti][:8], after_what), site + "|" + after_what)
                         break
                 prev_fail = None
+                continue
+            if fate == "late":
+                # whatever the outcome of this operation (data, nothing, an exception): it counts as a failed operation only when
+                # the client has still written its closing DM14 (then the server is idle again) - the next one must succeed
+                closing = [e for e in log if e.node == "C" and ((e.can_id >> 16) & 0xFF) == 0xD9 and len(e.data) == 8 and
+                           ((e.data[1] >> 1) & 7) == 4 and r["t0"] <= e.t <= r["t1"] + 0.004]
+                if "exc" not in r and r.get("value") not in ([], None) and r.get("value") != exp[ti]:
+                    V("ok-op-wrong-data", "operation %d (answered at the last moment): read returned %r, supplied %r" %
+                      (ti, r.get("value"), exp[ti]), site)
+                    break
+                if not closing:
+                    break           # the client gave up before the answer: the server waits for ever (documented limit) - stop here
+                prev_fail = "late" if ("exc" in r or r.get("value") in ([], None)) else None
                 continue
             # failing fates
             if "exc" not in r:
